@@ -83,6 +83,8 @@ pub struct RefVt {
     /// internal bookkeeping actions (collect / param / osc_put / clear) in order, for the cell check
     pub trace: Vec<&'static str>,
     pub trace_on: bool,
+    /// whether the last byte handled by the UTF-8 accumulator was accepted as a continuation
+    pub utf8_accepted: bool,
 }
 
 impl Default for RefVt {
@@ -113,6 +115,7 @@ impl RefVt {
             keep_events: true,
             trace: vec![],
             trace_on: false,
+            utf8_accepted: false,
         }
     }
 
@@ -231,7 +234,8 @@ impl RefVt {
         self.osc.push(b);
     }
     fn utf8(&mut self, b: u8) {
-        if b >= self.utf8_lo && b <= self.utf8_hi {
+        self.utf8_accepted = b >= self.utf8_lo && b <= self.utf8_hi;
+        if self.utf8_accepted {
             self.utf8_cp = (self.utf8_cp << 6) | (b & 0x3f) as u32;
             self.utf8_need -= 1;
             self.utf8_lo = 0x80;
@@ -465,4 +469,65 @@ pub fn cell(st: St, b: u8) -> (St, Vec<Ev>, bool, Vec<&'static str>) {
     r.trace_on = true;
     r.step(b);
     (r.st, r.ev.clone(), r.mid_char(), r.trace.clone())
+}
+
+/// Byte-granular reference stripper: decides for every input byte whether it belongs to the visible text.
+/// For valid UTF-8 input the kept bytes are exactly `visible(input)`; a multi-byte character is kept byte by
+/// byte as it arrives, so the stripper can be stopped and resumed at any byte position.
+#[derive(Clone, Debug)]
+pub struct RefStrip {
+    pub vt: RefVt,
+}
+
+impl Default for RefStrip {
+    fn default() -> Self {
+        Self::new()
+    }
+}
+
+impl RefStrip {
+    pub fn new() -> Self {
+        let mut vt = RefVt::new(Policy::Reprocess);
+        vt.keep_events = true;
+        RefStrip { vt }
+    }
+    /// true when byte `b` is part of the visible text
+    pub fn step(&mut self, b: u8) -> bool {
+        let was_mid = self.vt.mid_char();
+        self.vt.ev.clear();
+        self.vt.step(b);
+        let keep = if b >= 0x80 {
+            // lead or accepted continuation: still inside the character, or it completed a character
+            if was_mid {
+                self.vt.utf8_accepted || self.vt.mid_char()
+            } else {
+                self.vt.mid_char()
+            }
+        } else {
+            self.vt.ev.iter().any(|e| match e {
+                Ev::Print(c) => *c as u32 == b as u32 && b != 0x7f,
+                Ev::Execute(x) => *x == b && is_ws_control(b),
+                _ => false,
+            })
+        };
+        self.vt.ev.clear();
+        keep
+    }
+    pub fn feed(&mut self, bytes: &[u8], out: &mut Vec<u8>) {
+        for &b in bytes {
+            if self.step(b) {
+                out.push(b);
+            }
+        }
+    }
+    pub fn slot(&self) -> usize {
+        self.vt.slot()
+    }
+}
+
+pub fn ref_strip(bytes: &[u8]) -> Vec<u8> {
+    let mut s = RefStrip::new();
+    let mut out = Vec::with_capacity(bytes.len());
+    s.feed(bytes, &mut out);
+    out
 }
